@@ -107,3 +107,43 @@ Proof.
   apply Hstep.
   replace (Z.to_nat v) with O by lia. unfold emit_body. cbn [map]. destruct d_at; exact Hout.
 Qed.
+
+(* ---------- the same with a counter: `c FOR count` ---------- *)
+Definition cnt_bline (b : bline) : Prop :=
+  bl_labels b = [] /\ Forall plain_tok (bl_rest b) /\ (exists mk, wclass (bl_first b) 0 = Some (true, O, mk)).
+
+Lemma cnt_body_run : forall bs at_ content, Forall cnt_bline bs ->
+  exists at', body_run bs 0 at_ content = Some (O, at', content ++ flat_map bl_toks bs).
+Proof.
+  induction bs as [|b bs IH]; intros at_ content H.
+  - exists at_. cbn [body_run flat_map]. rewrite app_nil_r. reflexivity.
+  - inversion H as [|x y Hb Hbs]; subst. cbn [body_run flat_map].
+    destruct Hb as [Hl [Hr [mk Hw]]]. rewrite Hw.
+    destruct (IH (marked 0 at_ mk (length content)) (content ++ bl_out b true) Hbs) as [at' E].
+    exists at'. rewrite E. unfold bl_out, bl_toks. rewrite Hl. cbn [map lbl_seg flat_map app].
+    rewrite <- app_assoc. reflexivity.
+Qed.
+
+Theorem counter_block_unrolls cfg pre c forw es body rofw skip rest syms v :
+  Forall pline_ok pre -> is_label c ->
+  t_typ forw = tokText -> tok_is_pseudo forw = true -> lower_is (t_val forw) "for" = true -> Forall plain_tok es ->
+  front_symbols pre = Some syms ->
+  expand_and_evaluate (filter noncomment es) (with_constants cfg syms) = Some (EOk v) ->
+  Forall cnt_bline body ->
+  t_typ rofw = tokText -> tok_is_pseudo rofw = true -> lower_is (t_val rofw) "for" = false -> lower_is (t_val rofw) "rof" = true ->
+  Forall plain_tok skip -> Forall nonterm rest ->
+  let out := flat_map pl_out pre ++ flat_map (fun j => map (subst_body c [] j) (flat_map bl_toks body)) (nseq 1 (Z.to_nat v)) ++ rest ++ [tEOF] in
+  unrolls cfg 0 out out ->
+  unrolls cfg 1 (flat_map pl_toks pre ++ (mkT tokText c :: forw :: es ++ [nlt]) ++ flat_map bl_toks body ++ rofw :: skip ++ (nlt :: rest ++ [tEOF])) out.
+Proof.
+  intros Hpre Hc Hft Hfp Hff Hes Hsy Hev Hbody Hrt Hrp Hrf Hrr Hskip Hrest out Hout.
+  destruct (cnt_body_run body None [] Hbody) as [at' Hrun]. cbn [app] in Hrun.
+  assert (Hhl : plbl_ok [(c, @nil token)]) by (constructor; [split; [exact Hc|constructor]|constructor]).
+  pose proof (U_step cfg 0 pre [(c, [])] forw es body [] rofw skip rest tEOF v at' (flat_map bl_toks body) syms out
+                Hpre Hhl Hft Hfp Hff Hes Hsy Hev) as Hstep.
+  cbn [plbl_seg lbl_seg flat_map app map last init_list fst snd] in Hstep.
+  apply Hstep; try assumption; try reflexivity.
+  - eapply Forall_impl; [|exact Hbody]. intros b [Hl [Hr _]]. split; [rewrite Hl; constructor|exact Hr].
+  - constructor.
+  - rewrite emit_body_nolabs. exact Hout.
+Qed.
